@@ -108,3 +108,26 @@ Definition which_with (lt : pref -> pref -> bool) (g : list pref) : result pref 
 
 Definition which_pinned := which_with inst_ltb.
 Definition which_repaired := which_with pref_ltb.
+
+(* ---- the same loops at module level: the back-reference set holds PortRefs (instance, port) of SEVERAL instances,
+        each step rewrites the dict of its own instance *)
+Definition mstate := list (string * conns).
+Notation bref := (string * key)%type (only parsing).
+
+Fixpoint upd_inst (i : string) (g : conns -> result conns) (m : mstate) : result mstate :=
+  match m with
+  | [] => Error EMissing
+  | (j, c) :: t => if String.eqb i j then c' <- g c ;; Ok ((j, c') :: t)
+                   else t' <- upd_inst i g t ;; Ok ((j, c) :: t')
+  end.
+
+Definition mstep (step : flat_fn -> conns -> key -> result conns) (f : string -> flat_fn) (m : mstate) (r : bref)
+  : result mstate := upd_inst (fst r) (fun c => step (f (fst r)) c (snd r)) m.
+
+Fixpoint mrun (step : flat_fn -> conns -> key -> result conns) (f : string -> flat_fn) (pi : list bref) (m : mstate)
+  : result mstate :=
+  match pi with [] => Ok m | r :: t => m' <- mstep step f m r ;; mrun step f t m' end.
+
+(* the ports of instance i in a set of PortRefs, in the order of the enumeration *)
+Definition ports_of (i : string) (pi : list bref) : list key :=
+  map snd (filter (fun r => String.eqb (fst r) i) pi).
